@@ -1064,20 +1064,22 @@ structure Mid (s0 s : State) (i : Nat) : Prop where
   sent : s.sent = s0.sent
   issued : s.issued = s0.issued
   retired : s.retired = s0.retired
+  created : s.created = s0.created
 
 theorem mid_refl {s : State} (h : Inv s) (i : Nat) : Mid s s i :=
-  ⟨h.toPreInv, near_refl i s.mem, rfl, rfl, rfl, rfl, rfl, rfl⟩
+  ⟨h.toPreInv, near_refl i s.mem, rfl, rfl, rfl, rfl, rfl, rfl, rfl⟩
 
 theorem mid_script {s0 s : State} {i : Nat} (h : Mid s0 s i) (b : List Ans) (c : List Rsp) :
     Mid s0 { s with sts := b, rsps := c } i :=
-  ⟨h.pre.of_mem rfl rfl rfl rfl rfl h.pre.good rfl, h.near, h.disk, h.dir, h.next, h.sent, h.issued, h.retired⟩
+  ⟨h.pre.of_mem rfl rfl rfl rfl rfl h.pre.good rfl, h.near, h.disk, h.dir, h.next, h.sent, h.issued, h.retired,
+   h.created⟩
 
 theorem mid_upd {s0 s : State} {i : Nat} (h : Mid s0 s i) (f : Job → Job)
     (hf : ∀ j, s.mem[i]? = some j → Good (f j)) (hid : ∀ j, (f j).id = j.id)
     (hg : ∀ j, ∃ x b, f j = { j with st := x, res := b }) (b : List Ans) (c : List Rsp) :
     Mid s0 { s with sts := b, rsps := c, mem := upd f s.mem i } i :=
   ⟨preinv_upd h.pre i f hf hid rfl rfl rfl rfl rfl rfl, near_upd h.near f hg, h.disk, h.dir, h.next, h.sent,
-   h.issued, h.retired⟩
+   h.issued, h.retired, h.created⟩
 
 theorem query_mid {s0 s : State} {i : Nat} (h : Mid s0 s i) : Mid s0 (query s i).1 i := by
   unfold query
@@ -1234,6 +1236,232 @@ theorem trackOp_inv {s : State} (h : Inv s) : Inv (trackOp fixed s).1 := by
   | ok => exact trackLoop_inv _ h1
   | raised e => exact h1
   | killed => exact h1
+
+/-! ### frame: what the status views (`progress`, `list_*`, `get_results`, `track_progress`) can change -/
+
+/-- identifier and platform metadata of every job, in order -/
+def shape (l : List Job) : List (Option Nat × Nat) := l.map (fun j => (j.id, j.hd))
+
+/-- `s'` has the same jobs (identifiers, metadata, order), the same server counter and ghost records, the same
+creation date as `s` — only statuses, caches and the bodies dropped on SUCCESS may differ -/
+structure Frame (s s' : State) : Prop where
+  shape : shape s'.mem = shape s.mem
+  next : s'.next = s.next
+  sent : s'.sent = s.sent
+  issued : s'.issued = s.issued
+  retired : s'.retired = s.retired
+  created : s'.created = s.created
+
+theorem Frame.refl (s : State) : Frame s s := ⟨rfl, rfl, rfl, rfl, rfl, rfl⟩
+
+theorem Frame.trans {a b c : State} (h1 : Frame a b) (h2 : Frame b c) : Frame a c :=
+  ⟨h2.shape.trans h1.shape, h2.next.trans h1.next, h2.sent.trans h1.sent, h2.issued.trans h1.issued,
+   h2.retired.trans h1.retired, h2.created.trans h1.created⟩
+
+theorem shape_upd {f : Job → Job} (hf : ∀ j, (f j).id = j.id ∧ (f j).hd = j.hd) : ∀ (l : List Job) (i : Nat),
+    shape (upd f l i) = shape l
+  | [], _ => by simp [upd]
+  | j :: js, 0 => by simp [upd, shape, (hf j).1, (hf j).2]
+  | j :: js, i + 1 => by
+    have := shape_upd hf js i
+    simp only [shape] at this
+    simp [upd, shape, this]
+
+theorem shape_reload (l : List Job) : shape (reloadList l) = shape l := by
+  simp only [shape, reloadList, List.map_map]
+  apply List.map_congr_left
+  intro j _
+  simp only [Function.comp]
+  by_cases hs : j.st.isSuccess = true
+  · cases hi : j.id <;> simp [fromDict, toDict, hs, hi] <;> split <;> simp
+  · cases hi : j.id <;> simp [fromDict, toDict, hs, hi] <;> split <;> simp
+
+theorem frame_kill {s : State} (h : Inv s) : Frame s (kill fixed s).1 := by
+  simp only [kill, construct_eq h]
+  exact ⟨shape_reload s.mem, rfl, rfl, rfl, rfl, rfl⟩
+
+theorem frame_writeR {s : State} (h : PreInv s) : Frame s (writeR s).1 := by
+  simp only [writeR, write_ok h]
+  exact ⟨rfl, rfl, rfl, rfl, rfl, rfl⟩
+
+theorem refreshOne_frame {s : State} (h : Inv s) (i : Nat) : Frame s (refreshOne fixed s i).1 := by
+  unfold refreshOne
+  cases hj : s.mem[i]? with
+  | none => exact Frame.refl s
+  | some j =>
+    simp only
+    split
+    · rename_i hg
+      simp only [Bool.and_eq_true, Bool.not_eq_true'] at hg
+      have hns : j.st ≠ .success := by
+        intro e; rw [e] at hg; simp [Status.completed] at hg
+      have hi : ∀ y, s.mem[i]? = some y → y.id.isSome ∧ y.st ≠ .success := by
+        intro y hy; rw [hj] at hy; cases hy; exact ⟨hg.1, hns⟩
+      cases hs : s.sts with
+      | nil => exact frame_kill h
+      | cons a rest =>
+        cases a with
+        | fault e => exact ⟨rfl, rfl, rfl, rfl, rfl, rfl⟩
+        | ignored => exact ⟨rfl, rfl, rfl, rfl, rfl, rfl⟩
+        | intr => exact ⟨rfl, rfl, rfl, rfl, rfl, rfl⟩
+        | st x =>
+          simp only
+          have hp : PreInv { s with sts := rest, mem := upd (setSt x) s.mem i } :=
+            preinv_setSt h.toPreInv i x hi rfl rfl rfl rfl rfl rfl
+          have hf : Frame s { s with sts := rest, mem := upd (setSt x) s.mem i } :=
+            ⟨shape_upd (f := setSt x) (fun _ => ⟨rfl, rfl⟩) _ _, rfl, rfl, rfl, rfl, rfl⟩
+          split
+          · exact hf
+          · exact hf.trans (frame_writeR hp)
+    · exact Frame.refl s
+
+theorem refreshIdx_frame : ∀ (is : List Nat) {s : State}, Inv s → Frame s (refreshIdx fixed is s).1
+  | [], s, _ => Frame.refl s
+  | i :: is, s, h => by
+    have h1 := refreshOne_inv h i
+    have f1 := refreshOne_frame h i
+    unfold refreshIdx
+    generalize refreshOne fixed s i = r at h1 f1
+    obtain ⟨s', res⟩ := r
+    cases res with
+    | ok => exact f1.trans (refreshIdx_frame is h1)
+    | raised e => exact f1
+    | killed => exact f1
+
+theorem refreshAll_frame {s : State} (h : Inv s) : Frame s (refreshAll fixed s).1 := refreshIdx_frame _ h
+
+theorem near_shape {i : Nat} {l0 l : List Job} (h : Near i l0 l) : shape l = shape l0 := by
+  obtain ⟨f, hf, rfl⟩ := h
+  apply shape_upd
+  intro j
+  obtain ⟨x, b, e⟩ := hf j
+  rw [e]
+  exact ⟨rfl, rfl⟩
+
+theorem mid_frame {s0 s : State} {i : Nat} (h : Mid s0 s i) : Frame s0 s :=
+  ⟨near_shape h.near, h.next, h.sent, h.issued, h.retired, h.created⟩
+
+theorem mid_kill_frame {s0 s : State} {i : Nat} (h0 : Inv s0) (h : Mid s0 s i) : Frame s0 (kill fixed s).1 := by
+  have e : (kill fixed s).1 =
+      { s with dir := true, outs := [], sts := [], rsps := [], mem := reloadList s0.mem } := by
+    simp [kill, construct, h.disk, h0.disk, reloadList, fixed]
+  rw [e]
+  exact ⟨shape_reload s0.mem, h.next, h.sent, h.issued, h.retired, h.created⟩
+
+theorem mid_finish_frame {s0 s : State} {i : Nat} (h : Mid s0 s i) (old : Status) (r : Res) :
+    Frame s0 (finishGet fixed old s i r).1 := by
+  unfold finishGet
+  split
+  · simp only [write_ok h.pre]
+    exact ⟨near_shape h.near, h.next, h.sent, h.issued, h.retired, h.created⟩
+  · exact mid_frame h
+
+theorem fetch_frame {s0 s : State} {i : Nat} (h0 : Inv s0) (h : Mid s0 s i) (old : Status) :
+    Frame s0 (fetch fixed old s i).1 := by
+  unfold fetch
+  cases hr : s.rsps with
+  | nil => exact mid_kill_frame h0 h
+  | cons a rest =>
+    cases a with
+    | fault e => exact mid_finish_frame (mid_script h s.sts rest) _ _
+    | unavailable => exact mid_finish_frame (mid_script h s.sts rest) _ _
+    | ok m =>
+      refine mid_finish_frame (s := { s with rsps := rest, mem := upd (setRes fixed m) s.mem i }) ?_ _ _
+      exact mid_upd h (setRes fixed m) (fun y hy => good_setRes (h.pre.good y (List.mem_of_getElem? hy)) m)
+        (fun _ => rfl) (fun y => ⟨y.st, true, by simp [setRes, fixed]⟩) s.sts rest
+
+theorem getOne_frame {s : State} (h : Inv s) (i : Nat) : Frame s (getOne fixed s i).1 := by
+  unfold getOne
+  cases hj : s.mem[i]? with
+  | none => exact Frame.refl s
+  | some j =>
+    simp only
+    split
+    · exact Frame.refl s
+    · have hq := query_mid (mid_refl h i)
+      generalize query s i = q at hq
+      obtain ⟨s1, r1⟩ := q
+      cases r1 with
+      | killed => exact frame_kill h
+      | raised e => exact mid_finish_frame hq _ _
+      | ok =>
+        simp only
+        cases hj1 : s1.mem[i]? with
+        | none => exact mid_finish_frame hq _ _
+        | some j1 =>
+          simp only
+          split
+          · exact mid_finish_frame hq _ _
+          · split
+            · have hq2 := query_mid hq
+              generalize query s1 i = q2 at hq2
+              obtain ⟨s2, r2⟩ := q2
+              cases r2 with
+              | killed => exact mid_kill_frame h hq
+              | raised e => exact mid_finish_frame hq2 _ _
+              | ok =>
+                simp only
+                split
+                · exact mid_finish_frame hq2 _ _
+                · exact fetch_frame h hq2 _
+            · exact fetch_frame h hq _
+
+theorem getIdx_frame : ∀ (is : List Nat) {s : State} (acc : List Nat), Inv s → Frame s (getIdx fixed is s acc).1
+  | [], s, _, _ => Frame.refl s
+  | i :: is, s, acc, h => by
+    have h1 := getOne_inv h i
+    have f1 := getOne_frame h i
+    unfold getIdx
+    generalize getOne fixed s i = r at h1 f1
+    obtain ⟨s', res, b⟩ := r
+    cases res with
+    | ok => exact f1.trans (getIdx_frame is _ h1)
+    | raised e => exact f1
+    | killed => exact f1
+
+theorem getResultsOp_frame {s : State} (h : Inv s) : Frame s (getResultsOp fixed s).1 := by
+  have h1 := refreshAll_inv h
+  have f1 := refreshAll_frame h
+  unfold getResultsOp
+  generalize refreshAll fixed s = r at h1 f1
+  obtain ⟨s', res⟩ := r
+  cases res with
+  | ok => exact f1.trans (getIdx_frame _ _ h1)
+  | raised e => exact f1
+  | killed => exact f1
+
+theorem trackLoop_frame : ∀ (fuel : Nat) {s : State}, Inv s → Frame s (trackLoop fixed fuel s).1
+  | 0, _, h => frame_kill h
+  | fuel + 1, s, h => by
+    have h1 := refreshAll_inv h
+    have f1 := refreshAll_frame h
+    unfold trackLoop
+    generalize refreshAll fixed s = r at h1 f1
+    obtain ⟨s', res⟩ := r
+    cases res with
+    | ok =>
+      simp only
+      split
+      · exact f1
+      · split
+        · exact f1.trans ⟨rfl, rfl, rfl, rfl, rfl, rfl⟩
+        · exact f1.trans (trackLoop_frame fuel h1)
+    | raised e => exact f1
+    | killed => exact f1
+
+theorem trackOp_frame {s : State} (h : Inv s) : Frame s (trackOp fixed s).1 := by
+  have h1 := refreshAll_inv h
+  have f1 := refreshAll_frame h
+  unfold trackOp
+  generalize refreshAll fixed s = r at h1 f1
+  obtain ⟨s', res⟩ := r
+  cases res with
+  | ok => exact f1.trans (trackLoop_frame _ h1)
+  | raised e => exact f1
+  | killed => exact f1
+
+theorem frame_script (s : State) (a : List Outcome) (b : List Ans) (c : List Rsp) :
+    Frame s { s with outs := a, sts := b, rsps := c } := ⟨rfl, rfl, rfl, rfl, rfl, rfl⟩
 
 /-! ### deletion -/
 
